@@ -1,17 +1,18 @@
-use nv_c20::alloc::measure;
-use tensor_compress::format::*;
+use tensor_compress::*;
 fn main() {
-    let b = std::fs::read("/dev/shm/c20dump.bin").unwrap();
-    println!("{} bytes", b.len());
-    let (r, a) = measure(|| bitcode::deserialize::<CompressedSnapshot>(&b));
-    println!("max alloc {a}");
-    match r {
-        Ok(s) => {
-            println!("entries {}", s.entries.len());
-            for e in s.entries.iter().take(5) { println!("key len {} fields {}", e.key.len(), e.fields.len());
-              for (k,v) in e.fields.iter().take(4) { let d = format!("{v:?}"); println!("  {k:?} -> {}", &d[..d.len().min(200)]); } }
-        }
-        Err(e) => println!("err {e}"),
-    }
-    println!("sizes: entry {} value {} ", std::mem::size_of::<CompressedEntry>(), std::mem::size_of::<CompressedValue>());
+    let seed: Vec<i8> = vec![0, 0, 7, 0, 0, 0, 0, 0, 0, 6, 0, 0, 0, 0, 0, 0, 0, 0, 0, 0, 0, -3, 0, -7, 0, 0, 0, 0, 3, 0, -7, 0, 0, 0, 0];
+    let sd = |i: usize| f64::from(seed[i % seed.len()]) / 4.0;
+    let shape = [4usize, 4]; let ranks = [1usize, 2, 1];
+    let mut cores: Vec<Vec<f64>> = vec![]; let mut k0 = 0;
+    for k in 0..2 { let len = ranks[k]*shape[k]*ranks[k+1]; cores.push((0..len).map(|i| sd(k0 + i*7 + k)).collect()); k0 += len; }
+    println!("cores {cores:?}");
+    let mut x = vec![];
+    for i in 0..4 { for j in 0..4 { let mut v = 0.0; for r in 0..2 { v += cores[0][i*2 + r] * cores[1][r*4 + j]; } x.push(v as f32); } }
+    println!("x {x:?}");
+    let tt = tt_decompose(&x, &TTConfig{shape: shape.to_vec(), max_rank: 2, tolerance: 0.01}).unwrap();
+    println!("ranks {:?}", tt.ranks);
+    println!("y {:?}", tt_reconstruct(&tt));
+    let m = Matrix::new(x.clone(), 4, 4).unwrap();
+    let s = svd_truncated(&m, 2, 0.01).unwrap();
+    println!("svd rank {} s {:?}", s.rank, s.s);
 }
